@@ -56,11 +56,26 @@ INTERNAL = (AttributeError, IndexError, KeyError, RecursionError, UnboundLocalEr
 
 
 def world_description(tier):
-    return f"part A: {len(ctor_cases())} corrupted constructor calls; part B: {len(c10.catalogue(tier))} objects x public methods x boundary menus"
+    return f"part A: {len(ctor_cases())} corrupted constructor calls; part B: {len(catalogue(tier))} objects (incl. intervals that lie off their chunk) x public methods x boundary menus"
+
+
+def catalogue(tier):
+    """the C10 catalogue plus intervals that lie OFF their chunk (no base on it) or are cut by it"""
+    extra = []
+    for s in "+-":
+        extra.append(dict(kind="feat", blocks=[[1, 4], [6, 9]], strand=s, parent=(12, 20)))
+        extra.append(dict(kind="tx", exons=[[0, 5], [7, 14]], strand=s, cds=[1, 11], f0=0, parent=(16, 24)))
+        extra.append(dict(kind="tx", exons=[[0, 5], [7, 14]], strand=s, parent=(16, 24)))
+        extra.append(dict(kind="cds", exons=[[0, 5], [7, 14]], strand=s, cds=[0, 12], f0=0, parent=(15, 22)))
+        extra.append(dict(kind="gene", exons=[[0, 5], [7, 14]], strand=s, cds=[1, 11], parent=(16, 24)))
+        extra.append(dict(kind="fcoll", exons=[[0, 5], [7, 14]], strand=s, parent=(16, 24)))
+    extra.append(dict(kind="variant", s=3, e=5, alt="G", parent=(10, 20)))
+    extra.append(dict(kind="vcoll", vs=[[2, 3, "T"], [6, 8, ""]], parent=(12, 20)))
+    return c10.catalogue(tier) + extra
 
 
 def shards(tier, seed):
-    cat = c10.catalogue(tier)
+    cat = catalogue(tier)
     return ([{"tier": tier, "part": "ctor", "i": i} for i in range(8)] + [{"tier": tier, "part": "methods", "idx": i} for i in range(len(cat))]
             + [{"tier": tier, "part": "locmethods", "i": i} for i in range(32)])
 
@@ -692,7 +707,7 @@ def run_shard(shard):
             if idx % 32 == shard["i"]:
                 explore_methods(res, spec)
     else:
-        spec = c10.catalogue(shard["tier"])[shard["idx"]]
+        spec = catalogue(shard["tier"])[shard["idx"]]
         explore_methods(res, spec)
     bootstrap.clear_global_caches()
     return res
